@@ -319,8 +319,16 @@ func decodeAll(dec rafthttp.VerifDecoder, max int) (out []pb.Message, err error)
 	return out, nil
 }
 
-func checkTruncations(t *rapid.T, data []byte, bounds []int, want []string, newDec func(r io.Reader) rafthttp.VerifDecoder, rec *stats.Recorder, what string) {
+func checkTruncations(t *rapid.T, data []byte, bounds []int, want []string, newDec func(r io.Reader) rafthttp.VerifDecoder, rec *stats.Recorder, what string, inner ...int) {
 	var cuts []int
+	// inner: offsets inside a frame where a cut leaves a well-formed shorter protobuf message (field boundaries)
+	for _, b := range inner {
+		for _, d := range []int{-1, 0, 1} {
+			if c := b + d; c > 0 && c < len(data) {
+				cuts = append(cuts, c)
+			}
+		}
+	}
 	if len(data) <= 600 {
 		for c := 0; c < len(data); c++ {
 			cuts = append(cuts, c)
@@ -376,6 +384,18 @@ func TestMsgAppV2Truncation(t *testing.T) {
 		local := rapid.Uint64Range(1, 9).Draw(t, "local")
 		remote := rapid.Uint64Range(1, 9).Draw(t, "remote")
 		msgs := genV2Stream(t, local, remote, 6, false)
+		var inner []int
+		if rapid.IntRange(0, 9).Draw(t, "bigmsg") == 0 && msgs[0].From != 0 {
+			// first message (always a full frame) above the 1 MiB buffer, cut at its field boundaries too
+			m := &msgs[0]
+			m.Entries = nil
+			for k := 0; k < rapid.IntRange(2, 4).Draw(t, "nbig"); k++ {
+				m.Entries = append(m.Entries, pb.Entry{Term: m.Term, Index: m.Index + 1 + uint64(k), Data: payload(rapid.SampledFrom([]int{400000, 524288, 700000}).Draw(t, "bigsz"), byte(k+1))})
+			}
+			for _, b := range fieldBoundaries(*m) {
+				inner = append(inner, 9+b) // type byte + 8-byte length
+			}
+		}
 		want := make([]string, len(msgs))
 		for i := range msgs {
 			want[i] = canon(&msgs[i])
@@ -391,7 +411,7 @@ func TestMsgAppV2Truncation(t *testing.T) {
 		bounds = append(bounds, len(data))
 		checkTruncations(t, data, bounds, want, func(r io.Reader) rafthttp.VerifDecoder {
 			return rafthttp.VerifNewMsgAppV2Decoder(r, local, remote)
-		}, recV2Trunc, "msgappv2")
+		}, recV2Trunc, "msgappv2", inner...)
 	})
 }
 
@@ -504,12 +524,38 @@ func TestMessageRoundTrip(t *testing.T) {
 	})
 }
 
+// fieldBoundaries returns the stream offsets (relative to the start of the frame payload) at which
+// the protobuf encoding of m could be cut between two top-level fields after its k-th entry.
+func fieldBoundaries(m pb.Message) []int {
+	var out []int
+	for k := 0; k <= len(m.Entries); k++ {
+		p := pb.Message{Type: m.Type, To: m.To, From: m.From, Term: m.Term, LogTerm: m.LogTerm, Index: m.Index, Entries: m.Entries[:k]}
+		out = append(out, p.Size())
+	}
+	return out
+}
+
 func TestMessageTruncation(t *testing.T) {
 	rapid.Check(t, func(t *rapid.T) {
 		n := rapid.IntRange(1, 4).Draw(t, "n")
+		big := rapid.IntRange(0, 9).Draw(t, "bigmsg") == 0
 		var msgs []pb.Message
+		var inner []int
 		for i := 0; i < n; i++ {
-			msgs = append(msgs, genAnyMessage(t, false))
+			m := genAnyMessage(t, false)
+			if big && i == 0 {
+				// a message above the decoder's 1 MiB buffer: several entries whose sizes add up beyond it
+				m.Entries = nil
+				for k := rapid.IntRange(2, 5).Draw(t, "nbig"); k > 0; k-- {
+					m.Entries = append(m.Entries, pb.Entry{Term: 1, Index: uint64(10 + k), Data: payload(rapid.SampledFrom([]int{300000, 524288, 700000}).Draw(t, "bigsz"), byte(k))})
+				}
+			}
+			msgs = append(msgs, m)
+		}
+		if big {
+			for _, b := range fieldBoundaries(msgs[0]) {
+				inner = append(inner, 8+b) // 8-byte length header of the first frame
+			}
 		}
 		want := make([]string, len(msgs))
 		for i := range msgs {
@@ -519,7 +565,7 @@ func TestMessageTruncation(t *testing.T) {
 		if err != nil {
 			t.Fatalf("encode: %v", err)
 		}
-		checkTruncations(t, data, bounds, want, func(r io.Reader) rafthttp.VerifDecoder { return rafthttp.VerifNewMessageDecoder(r) }, recMsgTrunc, "message")
+		checkTruncations(t, data, bounds, want, func(r io.Reader) rafthttp.VerifDecoder { return rafthttp.VerifNewMessageDecoder(r) }, recMsgTrunc, "message", inner...)
 	})
 }
 
